@@ -198,7 +198,14 @@ def _r5(ctx):
     n = 0
     for r in rets:
         srcs = [r.value] if not (isinstance(r.value, ast.Name) and r.value.id in locs) else [x.value for x in locs[r.value.id]]
-        for e in srcs:
+        flat = []
+        while srcs:                                  # the arms of a conditional expression are sources of their own
+            e = srcs.pop(0)
+            if isinstance(e, ast.IfExp):
+                srcs[:0] = [e.body, e.orelse]
+            else:
+                flat.append(e)
+        for e in flat:
             k3, w3 = _order_kept(e, [])
             n += 1
             if k3 == "reordered":
@@ -354,7 +361,7 @@ def _r2(ctx):
         raise AnalysisError("fkm_goodman: interval list not found")
     ivs = [_interval(e) for e in tup[0].args[0].elts]
     dummies = [n for n in ast.walk(f.node) if isinstance(n, ast.List) and [const_value(x) for x in n.elts] == [0, 1, 2]]
-    if len(dummies) < 2:
+    if len(dummies) < 1:
         raise AnalysisError("fkm_goodman: dummy position labels [0, 1, 2] not found")
     stores = {}
     for s in f.node.body:
@@ -368,6 +375,10 @@ def _r2(ctx):
                           and x.targets[0].id == val.id]
                     if len(dd) == 1 and isinstance(dd[0].value, ast.Attribute):
                         val = ast.Name(id=dd[0].value.attr, ctx=ast.Load())
+                if isinstance(val, ast.Attribute) and isinstance(val.value, ast.Name):
+                    val = ast.Name(id=val.attr, ctx=ast.Load())          # the column read in place
+                elif isinstance(val, ast.Subscript) and isinstance(const_value(val.slice), str):
+                    val = ast.Name(id=const_value(val.slice), ctx=ast.Load())
                 stores[const_value(c[0].args[0].elts[0])] = (s, norm_text(val))
                 series_name = s.targets[0].value.value.id if isinstance(s.targets[0].value.value, ast.Name) else None
     init = [s for s in f.node.body if isinstance(s, ast.Assign) and isinstance(s.targets[0], ast.Name) and stores and
